@@ -5,6 +5,7 @@ for d in "$1"/out/C*-*/; do
   [ -f "$d/meta.json" ] || continue
   [ -f /verif/seeded/$n/meta.json ] && grep -q '"caught": true' /verif/seeded/$n/meta.json && continue
   out=$(python3 /verif/tools/seedcheck.py "$d" --keep-as "$n" --thorough --seeds "1 2" 2>&1)
+  mkdir -p /verif/work/seedout; echo "$out" > /verif/work/seedout/$n.txt
   valid=$(echo "$out" | grep -o '"valid_seed": [a-z]*' | tail -1)
   caught=$(echo "$out" | grep -o '"caught": [a-z]*' | tail -1)
   echo "$n $valid $caught" >> /verif/work/seedrun.log
